@@ -4,13 +4,14 @@ Relational monitor across four builds of the same source: default, full-lexer, a
 ranges erased before comparison) and num-bigint. Acceptance, tree, mandatory ranges and the error must be equal.
 """
 import json
+import zlib
 from collections import Counter
 
 from .. import core, layout, pyref, treework as tw
 from . import c09
 
 VARIANTS = ["deflt", "fulllex", "full", "numbig"]
-OPTIONAL = {"Module", "Interactive", "Expression", "comprehension", "withitem", "match_case", "arguments"}
+OPTIONAL = {"Module", "Interactive", "Expression", "ModModule", "ModInteractive", "ModExpression", "comprehension", "withitem", "match_case", "arguments"}
 
 
 def erase_optional(n):
@@ -36,6 +37,13 @@ def outcome(rep):
     return ("err", rep["err"], rep["offset"])
 
 
+def entry_outcome(rep, name):
+    t = c09.tree_of(rep, name == "Constant")
+    if t[0] == "ok":
+        return ("ok", json.dumps(erase_optional(t[1]), sort_keys=True, default=repr))
+    return t
+
+
 def check_text(st, res, tag, text, mode):
     outs = {}
     for v in VARIANTS:
@@ -55,6 +63,21 @@ def check_text(st, res, tag, text, mode):
             elif base[0] == "err" and outs[v][0] == "err":
                 detail["errors"] = [base[1:], outs[v][1:]]
             res.add(classify(v, base, outs[v], text), detail, {"op": "parse", "variants": ["deflt", v], "mode": mode, "text": text, "tag": tag})
+    # every entry point (typed parsers, pre-lexed streams, the deprecated functions), not only `parse`
+    if len(text) < 3000 and (tag.startswith("softkw-comments") or zlib.crc32(text.encode("utf-8", "surrogatepass")) % 4 == 0):
+        ents = {v: st[v].json("entry", [0], text) for v in VARIANTS}
+        res.counters["entry-point sets compared"] += 1
+        for name, r0 in ents["deflt"].items():
+            if name.endswith(".parse_tokens"):
+                # the typed parsers' parse_tokens takes an already filtered stream (it calls parse_filtered_tokens); the harness
+                # hands it the raw stream of lex_starts_at, which under full-lexer holds trivia: not comparable, by contract
+                continue
+            b0 = entry_outcome(r0, name)
+            for v in VARIANTS[1:]:
+                o = entry_outcome(ents[v].get(name, {"err": "entry missing", "offset": -1}), name)
+                if o != b0:
+                    res.add("unlisted:entry-point-%s-differs-from-default" % v, {"entry": name, "variant": v, "default": b0[:1] + (str(b0[1])[:80],), "other": o[:1] + (str(o[1])[:80],)},
+                            {"op": "entry", "variants": ["deflt", v], "entry": name, "text": text, "tag": tag})
     # token level: full-lexer tokens minus comments / non-logical newlines == default tokens
     l0 = st["deflt"].json("lex", [mode, 0], text)
     l1 = st["fulllex"].json("lex", [mode, 0], text)
@@ -126,7 +149,7 @@ def run(res):
         res.merge(p)
     res.rule = ("texts: corpus, generated programs/expressions, PEP 695 programs, layout rewrites that add comments / blank lines / continuations / form feeds / BOM before and "
                 "inside statements (soft-keyword statements in particular), seeded mutations (invalid texts), %d directed comment/soft-keyword snippets, huge integer literals in "
-                "every base; each parsed by four builds (default, full-lexer, all-nodes-with-ranges, num-bigint); a case is (mode, text)" % len(SOFT_COMMENTS))
+                "every base; each parsed by four builds (default, full-lexer, all-nodes-with-ranges, num-bigint), a quarter of the shorter ones also through every other entry point; a case is (mode, text)" % len(SOFT_COMMENTS))
     res.assumptions = ["optional ranges (Mod*, arguments, comprehension, withitem, match_case, parameter-with-default) are erased before comparing", "integers compared by their decimal rendering"]
 
 
